@@ -235,6 +235,35 @@ func (s LongLineSpace) Gen(i int64, emit func(Input)) {
 	})
 }
 
+// BigFileSpace: whole files far larger than any buffer (64 KiB to 1 MiB) made of
+// thousands of small statements, so that thousands of tokens cross the lexer/parser
+// hand-over; every string of <= N alphabet symbols is appended so the tail varies.
+// Item i = (size class, unit, tail).
+type BigFileSpace struct {
+	Label string
+	N     int
+}
+
+var bigUnits = []string{
+	"X := \"x\"\n",
+	"# c\ntask a(\"x.go\", b) -> (\"o\", X) {\n    echo {{.X}} a\n    go test ./...\n}\n\n",
+	"task a() { echo a }\n",
+}
+var bigSizes = []int{60 << 10, 66 << 10, 101 << 10, 300 << 10, 1100 << 10}
+
+func (s BigFileSpace) Name() string { return s.Label }
+func (s BigFileSpace) Count() int64 {
+	return int64(len(bigUnits)*len(bigSizes)) * SigmaSpace{N: s.N}.Count()
+}
+func (s BigFileSpace) Gen(i int64, emit func(Input)) {
+	k := int(i % int64(len(bigUnits)*len(bigSizes)))
+	unit, size := bigUnits[k%len(bigUnits)], bigSizes[k/len(bigUnits)]
+	body := strings.Repeat(unit, size/len(unit)+1)
+	SigmaSpace{N: s.N}.Gen(i/int64(len(bigUnits)*len(bigSizes)), func(in Input) {
+		emit(Input{Text: body + in.Text, Desc: s.Label})
+	})
+}
+
 // CanonicalBases renders every normal file of n statements over alpha canonically.
 func CanonicalBases(alpha []Stmt, n int, maxLen int) []string {
 	sp := StructSpace{Alpha: alpha, N: n}
@@ -314,6 +343,11 @@ func Spaces(tier string, forC06 bool, repo string) []Space {
 		ll.N = 3
 	}
 	sp = append(sp, ll)
+	bf := BigFileSpace{Label: "big-files", N: 1}
+	if thorough {
+		bf.N = 2
+	}
+	sp = append(sp, bf)
 	if thorough {
 		sp = append(sp, EditSpace{Label: "edit2", Bases: CanonicalBases(ReducedStatements(true), 1, 40), Pairs: true, Chunks: 32})
 	} else {
